@@ -324,7 +324,7 @@ static void c08_poll_cfg(int n, const int *kinds, int ii, int ti, int ce)
   vk_cfg.faults_on = 1;
   vk_cfg.fault_bound = 1;
   vk_cfg.fault_calls = 1ull << C_POLL;
-  vk_cfg.total_bound = hx_tier ? 2 : 1;
+  vk_cfg.total_bound = hx_tier && n <= 2 ? 2 : 1; /* three sources: one deviation; the pairs that matter are covered with two sources */
   int interests = p_interests[ii], timeout = p_timeouts[ti];
   char ks[40] = "";
   for (int i = 0; i < n; i++) { strcat(ks, sk_names[kinds[i]]); strcat(ks, i + 1 < n ? "," : ""); }
